@@ -255,7 +255,7 @@ func init() {
 			{Name: "VC13_CertificateTable", Params: map[string]int{"vsymC13Table": 24}, ConcAlloc: true, MaxDecisions: 2000, NeedReach: []string{"end"}},
 			{Name: "VC13_NoAttributes", NeedReach: []string{"end"}},
 			{Name: "VC13_SmallDER", Params: map[string]int{"vsymC13Max": 12}, MaxDecisions: 2000, MaxPaths: 400000, TimeoutSec: 300, NeedReach: []string{"end"}},
-			{Name: "VC13_BlobByte", Params: map[string]int{"vsymC13Stride": 24}, MaxDecisions: 2000, TimeoutSec: 400, NeedReach: []string{"end"}},
+			{Name: "VC13_BlobByte", Params: map[string]int{"vsymC13Stride": 64}, MaxDecisions: 2000, TimeoutSec: 400, NeedReach: []string{"end"}},
 		},
 		Thorough: []HarnessSpec{
 			{Name: "VC13_HeaderFields", Params: map[string]int{"vsymC13Field": -1}, MaxDecisions: 6000, MaxPaths: 200000, TimeoutSec: 3600, NeedReach: []string{"parsed", "rejected", "end"}},
@@ -265,7 +265,7 @@ func init() {
 			{Name: "VC13_BlobByte", Params: map[string]int{"vsymC13Stride": 8}, MaxDecisions: 4000, MaxPaths: 200000, TimeoutSec: 7200, NeedReach: []string{"end"}},
 		},
 		Bounds: []string{"image: the shipped test image with one header field at a time taking every value (e_lfanew, NumberOfSections, PointerToSymbolTable, NumberOfSymbols, SizeOfOptionalHeader, Magic, SizeOfHeaders, NumberOfRvaAndSizes, certificate table address and size, and SizeOfRawData / PointerToRawData / PointerToRelocations / NumberOfRelocations of two sections), then Parse, Hash, Bytes, Signatures",
-			"certificate table walk: fully symbolic table of 0..24 (quick) / 0..48 bytes; PKCS#7: fully symbolic DER of 0..12 (quick) / 0..14 bytes, a library-produced blob with one byte (stride 24 quick / 8 thorough) taking every value, and a signer entry without signed attributes",
+			"certificate table walk: fully symbolic table of 0..24 (quick) / 0..48 bytes; PKCS#7: fully symbolic DER of 0..12 (quick) / 0..14 bytes, a library-produced blob with one byte (stride 64 quick / 8 thorough) taking every value, and a signer entry without signed attributes",
 			"obligations on every path: no panic, no log.Fatal/os.Exit, every byte allocation <= 8*len + 16 MiB (image) / 64 KiB (others), termination within 3000 symbolic decisions and 20M steps; violations are replayed natively (panic / exit / measured allocation above 64 MiB / time-out)"},
 		Outside: []string{"several header fields changed at once, images other than the fixture, fully symbolic images", "Verify on mutated images (C02 covers single-byte mutants of a signed image)", "wall-clock time and resident memory as measured quantities", "longer symbolic DER"},
 		Assumptions: commonAssumptions,
